@@ -20,10 +20,17 @@ NthAPart(a, explicitPlus, explicitOne, upper) ==
         mag == IF NthAbs(a) = 1 /\ ~explicitOne THEN <<>> ELSE NthDigits(NthAbs(a))
     IN sign \o mag \o <<IF upper THEN UN ELSE LN>>
 \* the b-part after an n: "" (b = 0), "+b", "-b", optionally spaced
-NthBPart(b, spaced, zeroToo) ==
+\* gap styles around the sign: nothing, spaces, a comment, comments and whitespace (CSS allows whitespace and comments there)
+GapStyles == 0..4
+Gap(st, left) == CASE st = 0 -> <<>>
+                   [] st = 1 -> <<SP>>
+                   [] st = 2 -> <<47,42,32,99,32,42,47>>                                   \* /* c */
+                   [] st = 3 -> IF left THEN <<SP,47,42,42,47>> ELSE <<47,42,42,47,10>>    \* " /**/" before, "/**/\n" after the sign
+                   [] st = 4 -> <<9>>
+NthBPart(b, gap, zeroToo) ==
     IF b = 0 /\ ~zeroToo THEN <<>>
     ELSE LET op == IF b < 0 THEN <<MINUS>> ELSE <<PLUS>>
-         IN IF spaced THEN <<SP>> \o op \o <<SP>> \o NthDigits(NthAbs(b)) ELSE op \o NthDigits(NthAbs(b))
+         IN Gap(gap, TRUE) \o op \o Gap(gap, FALSE) \o NthDigits(NthAbs(b))
 
 EVEN == <<101,118,101,110>>
 ODD == <<111,100,100>>
@@ -33,7 +40,7 @@ UODD == <<79,100,68>>
 \* every accepted spelling of (a, b)
 Spellings(a, b) ==
     {NthAPart(a, ep, eo, up) \o NthBPart(b, sp, z) :
-         ep \in BOOLEAN, eo \in BOOLEAN, up \in BOOLEAN, sp \in BOOLEAN, z \in BOOLEAN}      \* "an+b" family (also a = 0: "0n+b")
+         ep \in BOOLEAN, eo \in BOOLEAN, up \in BOOLEAN, sp \in GapStyles, z \in BOOLEAN}      \* "an+b" family (also a = 0: "0n+b")
     \cup (IF a = 0 THEN {(IF b < 0 THEN <<MINUS>> ELSE <<>>) \o NthDigits(NthAbs(b))} ELSE {})     \* "b"
     \cup (IF a = 0 /\ b >= 0 THEN {<<PLUS>> \o NthDigits(b)} ELSE {})                                \* "+b"
     \cup (IF a = 2 /\ b = 0 THEN {EVEN, UEVEN} ELSE {})
@@ -45,12 +52,17 @@ IsDigit(c) == c >= 48 /\ c <= 57
 RECURSIVE NthNum(_, _, _)
 NthNum(s, i, acc) ==      \* <<value, next index>> of the digit run starting at i
     IF i <= Len(s) /\ IsDigit(s[i]) THEN NthNum(s, i + 1, acc * 10 + (s[i] - 48)) ELSE <<acc, i>>
-RECURSIVE NthSkipWs(_, _)
-NthSkipWs(s, i) == IF i <= Len(s) /\ IsWs(s[i]) THEN NthSkipWs(s, i + 1) ELSE i
+RECURSIVE NthSkipWs(_, _), NthSkipComment(_, _)
+\* index just after the comment that starts at i (i points at "/*"); Len + 1 when unterminated
+NthSkipComment(s, i) == IF i + 1 > Len(s) THEN Len(s) + 1
+                        ELSE IF s[i] = 42 /\ s[i + 1] = 47 THEN i + 2 ELSE NthSkipComment(s, i + 1)
+NthSkipWs(s, i) == IF i <= Len(s) /\ IsWs(s[i]) THEN NthSkipWs(s, i + 1)
+                   ELSE IF i + 1 <= Len(s) /\ s[i] = 47 /\ s[i + 1] = 42 THEN NthSkipWs(s, NthSkipComment(s, i + 2))
+                   ELSE i
 
 Bad == <<"bad">>
 ParseNth(s0) ==
-    LET s == Lower(s0) IN
+    LET s == Lower(s0) IN      \* (comment text is lower-cased too; it is skipped anyway)
     IF s = EVEN THEN <<2, 0>> ELSE IF s = ODD THEN <<2, 1>> ELSE
     LET neg == Len(s) > 0 /\ s[1] = MINUS
         i0 == IF Len(s) > 0 /\ s[1] \in {MINUS, PLUS} THEN 2 ELSE 1
